@@ -718,12 +718,30 @@ def coverage(done, tier):
     regs = {}
     samples = []
     wl_runs = Counter()
+    cfg_classes = Counter()
     maxrel = 0.0
     hashes = set()
     for spec, res in done:
         for k, v in res.get("stats", {}).items():
             tot[k] += v
         wl_runs[spec["workload"] + "/" + spec["group"]] += len(spec["scheds"])
+        wp_ = spec.get("wparams", {})
+        for lab, hit in (
+            ("screening_threshold_passed", wp_.get("cutoff") is not None),
+            ("generally_contracted_basis", str(wp_.get("basis", "")).startswith(("ano", "cc-"))),
+            ("points_far_first_or_interleaved", wp_.get("order") in ("radial_rev", "blockwise") and wp_.get("cutoff") is not None),
+            ("production_size_evaluator", spec["workload"] == "evaluators" and wp_.get("n", 0) >= 4400),
+            ("smooth_cutoff_with_low_top_of_range", bool(wp_.get("smooth")) and wp_.get("amax", 3e4) < 3e4),
+            ("samples_ordered_by_density", wp_.get("rho_order") in ("by_density", "by_density_rev")),
+            ("gauss_r2_integrals", wp_.get("itype") == "gauss_r2"),
+            ("explicit_exponent_ladder", bool(wp_.get("ladder"))),
+            ("full_sdmx_settings", wp_.get("kind") == "sdmxfull"),
+            ("unsorted_cider_grids", wp_.get("sort_grids") is False),
+            ("caller_stated_exponent_formula", bool(wp_.get("gen_formula"))),
+            ("dense_spline_table", bool(wp_.get("spline_mul")) and wp_.get("plan_type") == "spline"),
+        ):
+            if hit:
+                cfg_classes[lab] += 1
         for name, r in res.get("regions", {}).items():
             e = regs.setdefault(name, {"runs": 0, "runs_multi": 0, "max_team": 0})
             r = {k: r.get(k, 0) for k in ("runs", "runs_multi", "max_team")}
@@ -790,6 +808,7 @@ def coverage(done, tier):
         "team_size_histogram": teams,
         "strategy_histogram": strats,
         "schedule_runs_by_workload": dict(wl_runs),
+        "cases_by_input_configuration_class": dict(cfg_classes),
         "trace_replays_verified": int(tot["trace_replays_verified"]),
         "trace_segments_replayed": int(tot["trace_segments_replayed"]),
         "distinct_interleavings": len(hashes),
